@@ -79,6 +79,16 @@ def handleTrr (hex : String) : String :=
     | some fs => "ok " ++ ";".intercalate (fs.map (fun f =>
         s!"{f.natoms} {f.step} {showF32 f.time} {showF32 f.lambda} B {" ".intercalate (f.box.map showF32)} X {" ".intercalate (f.x.map showF32)}"))
 
+/-- `xtc <hex of the file>`: per frame natoms step time B box… X coordinates… (X empty when the coordinates are stored compressed) -/
+def handleXtc (hex : String) : String :=
+  match hexBytes hex.toList with
+  | none => "bad-op"
+  | some bytes =>
+    match MdVerif.Xdr.readXtc bytes with
+    | none => "unreadable"
+    | some fs => "ok " ++ ";".intercalate (fs.map (fun f =>
+        s!"{f.natoms} {f.step} {showF32 f.time} B {" ".intercalate (f.box.map showF32)} X {" ".intercalate (f.x.map showF32)}"))
+
 def showF64Pairs : List Nat → List String
   | lo :: hi :: r => (match MdVerif.Dcd.f64ToRat lo hi with | some q => showRat q | none => "nonfinite") :: showF64Pairs r
   | _ => []
@@ -96,6 +106,7 @@ def handleDcd (hex : String) : String :=
 def handleFmt : List String → String
   | ["trr", hex] => handleTrr hex
   | ["dcd", hex] => handleDcd hex
+  | ["xtc", hex] => handleXtc hex
   -- fmtq <format> <gro precision> <n atoms> <values in nm …>: stored (native) and loaded (nm) value of each, and the tie margin of the rounding
   | "fmtq" :: fs :: gs :: ns :: rest =>
     match parseF fs, gs.toNat?, ns.toNat?, rest.mapM parseRat with
